@@ -21,7 +21,18 @@ open Py
 
 abbrev ClassId := Nat
 
-inductive Kind | element | attribute | wildcard | text
+inductive Kind | element | attribute | wildcard | text | elements
+  deriving DecidableEq, Repr, Inhabited
+
+/-- one entry of `metadata["choices"]` of a compound (`type="Elements"`) field whose
+type is a single binding model -/
+structure Alt where
+  /-- `choice.get("name", "any")` -/
+  name : Option Str
+  /-- `choice["namespace"]` -/
+  ns : Option Str
+  /-- `choice["type"]` -/
+  cls : Nat
   deriving DecidableEq, Repr, Inhabited
 
 /-- one dataclass field with its `metadata` -/
@@ -36,7 +47,13 @@ structure Field where
   cls : Option ClassId
   /-- `metadata["wrapper"]` -/
   wrapper : Option Str := none
+  /-- `metadata["choices"]` (compound fields only) -/
+  alts : List Alt := []
   deriving DecidableEq, Repr, Inhabited
+
+/-- a plain element field (optional model type) -/
+def Field.elem (name : Str) (cls : Option Nat := none) : Field :=
+  { name := name, kind := .element, mname := none, ns := none, cls := cls }
 
 structure ClassDef where
   /-- `__name__` (assumed non-empty) -/
@@ -104,6 +121,12 @@ def classMeta (d : ClassDef) (pns : Option Str) : ClassMeta :=
     let tns := firstSome [d.targetNs, d.moduleNs, d.ns.getD none]
     ⟨q, ln, ns, some (qn tns ln)⟩
 
+/-- a choice of a compound field: `XmlVar.elements[qname]` -/
+structure ChoiceVar where
+  qname : Str
+  cls : Nat
+  deriving DecidableEq, Repr
+
 /-- `XmlVar` (the parts that names and lookups depend on) -/
 structure Var where
   index : Nat
@@ -118,6 +141,8 @@ structure Var where
   wrapper : Option Str := none
   /-- `XmlVar.wrapper_qname` -/
   wrapperQName : Option Str := none
+  /-- `XmlVar.elements` of a compound field, in dict order -/
+  choices : List ChoiceVar := []
   deriving DecidableEq, Repr
 
 /-- `XmlVarBuilder.resolve_namespaces` -/
@@ -140,7 +165,26 @@ def defaultNamespace : List Str → Option Str
   | [] :: rest => defaultNamespace rest
   | (c :: cs) :: rest => if c = '#' then defaultNamespace rest else some (c :: cs)
 
-/-- `XmlVarBuilder.build` for one field (no choices) -/
+/-- `dict[k] = v` on the choices of a compound field (`elements[choice.qname] = choice`) -/
+def choiceSet (d : List ChoiceVar) (ch : ChoiceVar) : List ChoiceVar :=
+  match d with
+  | [] => [ch]
+  | x :: rest => if x.qname = ch.qname then ch :: rest else x :: choiceSet rest ch
+
+/-- `XmlVarBuilder.build_choices`: every choice is built like an element field named
+`choice.get("name", "any")` with the compound field's parent namespace -/
+def buildChoices (f : Field) (pns : Option Str) : List ChoiceVar :=
+  f.alts.foldl (fun acc a =>
+    let ln := a.name.getD "any".toList
+    let nss := resolveNamespaces .element a.ns pns
+    choiceSet acc ⟨qn (defaultNamespace nss) ln, a.cls⟩) []
+
+/-- "Compound field contains ambiguous types": a type occurs in two choices -/
+def altsAmbiguous : List Alt → Bool
+  | [] => false
+  | a :: rest => rest.any (fun b => b.cls == a.cls) || altsAmbiguous rest
+
+/-- `XmlVarBuilder.build` for one field -/
 def buildVar (index : Nat) (f : Field) (pns : Option Str) : Var :=
   let ln := if truthy f.mname then f.mname.getD [] else f.name
   let nss := resolveNamespaces f.kind f.ns pns
@@ -148,7 +192,8 @@ def buildVar (index : Nat) (f : Field) (pns : Option Str) : Var :=
     qname := qn (defaultNamespace nss) ln, namespaces := nss,
     kind := if f.cls.isSome then .element else f.kind, cls := f.cls,
     wrapper := f.wrapper,
-    wrapperQName := if truthy f.wrapper then some (qn (defaultNamespace nss) (f.wrapper.getD [])) else none }
+    wrapperQName := if truthy f.wrapper then some (qn (defaultNamespace nss) (f.wrapper.getD [])) else none,
+    choices := buildChoices f pns }
 
 /-- `__mro__` without `object`, via the single-base chain (fuel bounds the depth) -/
 def mroAux (U : Universe) : Nat → ClassId → List ClassId
@@ -174,12 +219,14 @@ def allFields (U : Universe) (c : ClassId) : List (ClassId × Field) :=
 def chainBad (U : Universe) (c : ClassId) : Bool :=
   (mro U c).any fun k =>
     match U.get? k with
-    | some d => d.bad
+    | some d => d.bad || d.fields.any (fun f => altsAmbiguous f.alts)
     | none => false
 
-def enumFrom1 {α} : Nat → List α → List (Nat × α)
+/-- `XmlVarBuilder.index`: every var takes the next number; the choices of a compound
+field are vars too and take the numbers after their field's -/
+def enumFrom1 : Nat → List (ClassId × Field) → List (Nat × (ClassId × Field))
   | _, [] => []
-  | i, x :: xs => (i, x) :: enumFrom1 (i + 1) xs
+  | i, x :: xs => (i, x) :: enumFrom1 (i + 1 + x.2.alts.length) xs
 
 /-- `XmlMetaBuilder.build_vars` -/
 def buildVars (U : Universe) (c : ClassId) (ns : Option Str) : List Var :=
